@@ -34,7 +34,7 @@ struct VC {
 };
 
 enum TState { T_FREE = 0, T_RUNNABLE, T_BLOCKED, T_FINISHED };
-enum BKind { B_NONE = 0, B_MUTEX, B_CV, B_FUTEX, B_JOIN, B_SLEEP, B_CELL, B_GUARD };
+enum BKind { B_NONE = 0, B_MUTEX, B_CV, B_FUTEX, B_JOIN, B_SLEEP, B_CELL, B_GUARD, B_STARVE };
 
 constexpr int MAXDEPTH = 4096;
 
@@ -60,7 +60,7 @@ struct SimThread {
 enum Status { ST_OK = 0, ST_VIOLATION = 3, ST_LIMIT = 4, ST_SKIP = 5 };
 
 // fault kinds
-enum Fault { F_PREEMPT = 0, F_CAS_WEAK, F_SPUR_CV, F_SPUR_FUTEX, F_STALL, F_CLOCK_ADV, F_NKINDS };
+enum Fault { F_PREEMPT = 0, F_CAS_WEAK, F_SPUR_CV, F_SPUR_FUTEX, F_STALL, F_CLOCK_ADV, F_STARVE, F_NKINDS };
 extern const char *const fault_names[F_NKINDS];
 
 struct Dev { u32 idx, val; };
@@ -83,6 +83,7 @@ struct Global {
     MVec<u32> plan_in; size_t plan_pos;
     MVec<u32> plan_out; MVec<u32> plan_bound;
     bool faults_on;
+    double starve_p;                  // per-run rate of the starvation fault (0 in most runs)
     bool plain_points;                // this run also has scheduling points before plain accesses to memory another thread touched
     int strategy; double p_switch; int pct_depth; u64 pct_points[4]; u32 rr_quantum; u32 prio_low;
     bool fair;
